@@ -31,17 +31,29 @@ def _solve(i, rlimit=None):
     return i, str(r), time.time() - t0, model
 
 
+def _solve_fast(i): return _solve(i, FAST_RLIMIT)
+
+
 def discharge(vcs, jobs=None):
     """Sets vc.result ('unsat'|'sat'|'unknown'), vc.time, vc.model on each VC."""
     global _VCS
     _VCS = vcs
     jobs = jobs or min(16, os.cpu_count() or 1)
     # pass 1: sequential with a small resource budget (most VCs take milliseconds)
-    res = {}; hard = []
-    for i in range(len(vcs)):
-        r = _solve(i, FAST_RLIMIT)
-        if r[1] == 'unknown': hard.append(i)
-        res[i] = r
+    res = {}; hard = []; t0 = time.time()
+    if len(vcs) > 80 and jobs > 1:
+        # many VCs: the cheap pass runs in the pool as well (round-robin chunks keep the expensive ones apart)
+        ctx = mp.get_context('fork')
+        with ctx.Pool(jobs) as pool:
+            for r in pool.map(_solve_fast, range(len(vcs)), chunksize=max(1, len(vcs) // (jobs * 6))):
+                if r[1] == 'unknown': hard.append(r[0])
+                res[r[0]] = r
+    else:
+        for i in range(len(vcs)):
+            r = _solve(i, FAST_RLIMIT)
+            if r[1] == 'unknown': hard.append(i)
+            res[i] = r
+    t1 = time.time()
     # pass 2: the rest in a fork-based pool with the full budget
     if hard:
         if len(hard) == 1 or jobs == 1:
@@ -50,6 +62,7 @@ def discharge(vcs, jobs=None):
             ctx = mp.get_context('fork')
             with ctx.Pool(min(jobs, len(hard))) as pool:
                 for r in pool.map(_solve, hard, chunksize=1): res[r[0]] = (r[0], r[1], r[2] + res[r[0]][2], r[3])
+    if os.environ.get('PYVC_DEBUG'): print('discharge: pass1 %.1fs (%d VCs), pass2 %.1fs (%d VCs)' % (t1 - t0, len(vcs), time.time() - t1, len(hard)))
     for i, (_, r, t, m) in res.items():
         vcs[i].result = r; vcs[i].time = t; vcs[i].model = m
         if r == 'sat' and m:
